@@ -2,9 +2,11 @@
 (* Trace spec (monitor) for C10.  Events recorded from the real Crazyflie.send_packet /
    _check_for_answers / close_link / Timer threads against the simulated link:
      send [req, sess, pat, tmo]      the application calls send_packet(expected_reply) (before the call)
-     tx   [req, sess, t]             the link saw a transmission of request req (sess 0 = on a closed
+     tx   [req, sess, t, strict]     the link saw a transmission of request req (sess 0 = on a closed
                                      or superseded link object)
-     ans  [sess, data, t]            an incoming packet has been checked for answers by the library
+     ansb [sess, data, t]            the library starts checking an incoming packet for answers
+     ans  [sess, data, t]            ... and has finished checking it
+     drop [req, t]                   request handed to a link object that was already closed (no transmission)
      end  [t, sess, strict]          end of the execution: time, session of the open link (0 = closed);
                                      strict = time only advanced when no thread could run
    Positions in the event list give the global order (n).                                         *)
@@ -49,13 +51,27 @@ ETx == /\ Ev.e = "tx"
                      ELSE IF Ev.sess # reqs[Ev.req].sess THEN "CrossSession"
                      ELSE IF ~first /\ Reliable THEN "RetryOnReliableLink"
                      ELSE IF ~first /\ AnsweredBeforeDue(rtx, Ev.req) THEN "RetryAfterAnswer"
-                     ELSE IF ~P!Interval(wire2, reqs) THEN "RetryTooEarly"
+                     \* (only where time advances only when no thread can run: otherwise a thread
+                     \* that is slow between re-arming and transmitting makes the next retry look early)
+                     ELSE IF Ev.strict /\ ~P!Interval(wire2, reqs) THEN "RetryTooEarly"
                      ELSE "ok")
        /\ UNCHANGED <<reqs, ans>>
 
+\* ansb: the library starts checking an incoming packet (this fixes which request it answers: n);
+\* ans: the check is complete (from this time on the request counts as answered: t).
+Pending == 1073741823
+EAnsB == /\ Ev.e = "ansb"
+         /\ ans' = Append(ans, [n |-> l, t |-> Pending, sess |-> Ev.sess, data |-> Ev.data])
+         /\ UNCHANGED <<reqs, reqsTx, wire, bad, badAt>>
 EAns == /\ Ev.e = "ans"
-        /\ ans' = Append(ans, [n |-> l, t |-> Ev.t, sess |-> Ev.sess, data |-> Ev.data])
+        /\ ans' = IF Len(ans) > 0 /\ ans[Len(ans)].t = Pending /\ ans[Len(ans)].data = Ev.data
+                  THEN [ans EXCEPT ![Len(ans)].t = Ev.t]
+                  ELSE Append(ans, [n |-> l, t |-> Ev.t, sess |-> Ev.sess, data |-> Ev.data])
         /\ UNCHANGED <<reqs, reqsTx, wire, bad, badAt>>
+
+\* a packet handed to a link object that is already closed: nothing goes on the wire
+EDrop == /\ Ev.e = "drop"
+         /\ UNCHANGED <<reqs, reqsTx, wire, ans, bad, badAt>>
 
 \* last transmission time of request r (0 if none)
 LastTx(r) == LET c == {i \in DOMAIN wire : wire[i].req = r} IN
@@ -74,7 +90,7 @@ EEnd == /\ Ev.e = "end"
         /\ UNCHANGED <<reqs, reqsTx, wire, ans>>
 
 Step == /\ l <= Len(T.ev) /\ l' = l + 1 /\ UNCHANGED tid
-        /\ (ESend \/ ETx \/ EAns \/ EEnd)
+        /\ (ESend \/ ETx \/ EAnsB \/ EAns \/ EDrop \/ EEnd)
 Finish == /\ l = Len(T.ev) + 1 /\ l' = l + 1
           /\ PrintT(<<"VERDICT", T.id, bad, badAt, TRUE, 0>>)
           /\ UNCHANGED <<tid, reqs, reqsTx, wire, ans, bad, badAt>>
